@@ -1,5 +1,6 @@
 import ParryModel.Field
 import ParryModel.C11.Lemmas
+import ParryModel.C11.Theorems2
 /-!
 # C11 property theorems: TriMesh derived data always match the buffers
 
@@ -597,5 +598,58 @@ example : ∃ s : Mesh Pt Int,
 example : ∃ s : Mesh Pt Int,
     hist true [(0,0),(1,0),(0,1),(1,1)] [⟨0,1,2⟩, ⟨1,3,2⟩] (fl 8) [.reverse] = some s ∧ Coherent true s :=
   ⟨_, rfl, by decide⟩
+
+/-! ## `scaled` (see `Theorems2.lean` for the general theorems): the code as written, and the fix, on concrete meshes
+
+In the planar geometry a pseudo-normal is the `z` component of the scaled normal `(b - a) × (c - a)`.  `scaled` **as
+written** multiplies every cached normal component-wise by the scale (`z` component: by `scale.z = 1` for a scale acting
+in the plane) and normalises it, which keeps the sign: `fN = id`. -/
+
+/-- the mirror `x ↦ -x` (scale `(-1, 1, 1)`) -/
+def mirrorX (p : Pt) : Pt := (-p.1, p.2)
+/-- the non-uniform scale `(2, 1, 1)` -/
+def stretchX (p : Pt) : Pt := (2 * p.1, p.2)
+
+/-- (h) **as written**, `scaled` by a mirroring scale keeps pseudo-normals pointing to the old side: after `x ↦ -x` the
+triangles are oriented the other way round (a fresh build gives the opposite normals), the cached ones are unchanged -/
+theorem scaledW_mirror_not_coherent :
+    ∃ s0 : Mesh Pt Int,
+      withFlags true [(0,0),(1,0),(0,1),(1,1)] [⟨0,1,2⟩, ⟨1,3,2⟩] (fl 8) = .ok s0 ∧
+      ¬ Coherent true (scaledW true mirrorX id s0) ∧
+      (scaledW true mirrorX id s0).pn.map (·.vertices) = some [1, 2, 2, 1] ∧
+      (derive true (scaledW true mirrorX id s0).vertices (scaledW true mirrorX id s0).indices (fl 8)).pn.map (·.vertices)
+        = some [-1, -2, -2, -1] :=
+  ⟨_, rfl, by decide, by decide, by decide⟩
+
+/-- (i) **as written**, `scaled` by a non-uniform scale keeps the old weights: in this geometry the weight of a triangle
+is its doubled area, which `x ↦ 2x` doubles (in the real geometry: the angles at the vertices change) -/
+theorem scaledW_nonuniform_not_coherent :
+    ∃ s0 : Mesh Pt Int,
+      withFlags true [(0,0),(1,0),(0,1),(1,1)] [⟨0,1,2⟩, ⟨1,3,2⟩] (fl 8) = .ok s0 ∧
+      ¬ Coherent true (scaledW true stretchX id s0) :=
+  ⟨_, rfl, by decide⟩
+
+/-- with the fix both histories end coherent (instances of `history2_coherent`), the QBVH holds the triangles of the
+scaled mesh (instance of `history2_qcoherent`), and the pseudo-normals of the mirrored mesh are the opposite ones -/
+theorem scaled_fixed_witnesses :
+    ∃ s1 s2 : Mesh Pt Int,
+      (match withFlags true [(0,0),(1,0),(0,1),(1,1)] [⟨0,1,2⟩, ⟨1,3,2⟩] (fl 8) with
+        | .ok s0 => run2 true s0 [.scale mirrorX id, .base .reverse] | _ => none) = some s1 ∧
+      (match withFlags true [(0,0),(1,0),(0,1),(1,1)] [⟨0,1,2⟩, ⟨1,3,2⟩] (fl 11) with
+        | .ok s0 => run2 true s0 [.scale stretchX id, .base (.setFlags (fl 27)), .scale mirrorX id] | _ => none) = some s2 ∧
+      Coherent true s1 ∧ Coherent true s2 ∧
+      s1.vertices = [(0,0),(-1,0),(0,1),(-1,1)] ∧ s1.pn.map (·.vertices) = some [1, 2, 2, 1] ∧
+      s2.vertices = [(0,0),(-2,0),(0,1),(-2,1)] ∧ s2.pn.map (·.vertices) = some [-2, -4, -4, -2] ∧
+      s2.qbvh = allCoords s2.vertices s2.indices :=
+  ⟨_, _, rfl, rfl, by decide, by decide, by decide, by decide, by decide, by decide, by decide⟩
+
+/-- the planar box satisfies the box law for the mirror (non-vacuity of `Op2BoxLawful` / `scaled_qcoherent`): mirroring
+the box `[x0, x1] × [y0, y1]` to `[-x1, -x0] × [y0, y1]` gives the box of the mirrored triangle -/
+theorem planarBox_mirror_law :
+    ScaleBoxLaw planarBox (fun b => ((-b.2.1, b.1.2), (-b.1.1, b.2.2))) mirrorX := by
+  intro c
+  obtain ⟨⟨a1, a2⟩, ⟨b1, b2⟩, ⟨c1, c2⟩⟩ := c
+  simp only [planarBox, mapTri, mirrorX, Prod.mk.injEq]
+  refine ⟨⟨?_, trivial⟩, ⟨?_, trivial⟩⟩ <;> omega
 
 end C11
